@@ -392,18 +392,38 @@ theorem renderRel_ne_nil (L : List Text) (hne : L ≠ []) (hns : ∀ s ∈ L, cS
       | nil => simp at hsh'
       | cons c r => cases xs <;> simp [joinSlash]
 
+/-- the "same document" shortcut of `relative_to`: the target has a query or a fragment, its
+query would not be lost behind the base's, and the relative path written so far is the base's
+last segment -/
+def sdCond (a b : Text) : Bool :=
+  ((split a).query.isSome || (split a).fragment.isSome) &&
+    ((split a).query.isSome || (split b).query.isNone) &&
+    some (renderRel (relSegs a b)) == Path.last (split b).path
+
+omit ok okp in
+/-- `clear` through a fresh handle on a path-only relative reference -/
+theorem clear_renderRel (L : List Text) (hns : ∀ x ∈ L, cSlash ∉ x ∧ PathText x) :
+    ∃ h', (Ref.path_mut (renderRel L)).clear = some h' ∧ h'.buffer = [] := by
+  obtain ⟨hpt, hf, hss, hab⟩ := renderRel_props L hns
+  have wf := wf_pathOnly _ hpt hf hss
+  have i := path_handle_of_wf _ wf
+  rw [recompose_pathOnly] at i
+  simp only [pathOnly, schemeText, authText, queryText, fragText, List.append_nil] at i
+  obtain ⟨h', e, i', _, _⟩ := clear_view _ _ _ _ i
+  refine ⟨h', e, ?_⟩
+  rw [i'.data]
+  simp [clearView, hab]
+
 /-- the path part of `relative_to` on two paths that both count as absolute (the base's may be
-empty behind an authority) -/
-theorem relative_body_explicit (we : Grammar.OkWE G) (a b : Text)
+empty behind an authority): the relative path, or nothing when the shortcut fires -/
+theorem relative_body_explicit_gen (we : Grammar.OkWE G) (a b : Text)
     (ha : Matches G.reference a) (hb : Matches G.reference b)
     (hpa : isAbs (split a).path = true)
     (hpb : isAbs (split b).path = true ∨ ((split b).path = [] ∧ (split b).authority.isSome = true))
     (hLne0 : relSegs a b ≠ [])
-    (hcls : (!(remainder a b).2.2 && (remainder a b).1.head? == some []) = false)
-    (hnsp : (((split a).query.isSome || (split a).fragment.isSome) &&
-      ((split a).query.isSome || (split b).query.isNone) &&
-      some (renderRel (relSegs a b)) == Path.last (split b).path) = false) :
-    Ref.relative_body a b = some (recompose (pathQF (renderRel (relSegs a b)) (split a).query (split a).fragment)) := by
+    (hcls : (!(remainder a b).2.2 && (remainder a b).1.head? == some []) = false) :
+    Ref.relative_body a b = some (recompose (pathQF (if sdCond a b then [] else renderRel (relSegs a b))
+      (split a).query (split a).fragment)) := by
   obtain ⟨vA, wA⟩ := split_valid G ok a ha
   obtain ⟨vO, wO⟩ := split_valid G ok b hb
   have hsa := ref_scheme_opt_recompose (split a) wA
@@ -444,7 +464,7 @@ theorem relative_body_explicit (we : Grammar.OkWE G) (a b : Text)
   have hdfA : DotFree (nsegs (split a).path) := by
     unfold nsegs; rw [hpa]; exact nsegsOf_abs_dotFree _
   have hdfB : DotFree (nsegs (Path.parent_or_empty (split b).path)) := by rw [he0]; exact nsegsOf_abs_dotFree _
-  have hbody : Ref.relative_body a b = some (recompose (pathQF (renderRel (relSegs a b))
+  have hbody : Ref.relative_body a b = some (recompose (pathQF (if sdCond a b then [] else renderRel (relSegs a b))
       (split a).query (split a).fragment)) := by
     unfold Ref.relative_body
     simp only [hpA, hpO, hqa, hqb, hfa, hbu, normalized_segments_eq _ hptA, normalized_segments_eq _ (hpp hptO)]
@@ -461,12 +481,13 @@ theorem relative_body_explicit (we : Grammar.OkWE G) (a b : Text)
     have hcls' := hcls
     unfold remainder at hcls'
     simp only [hcls', Bool.false_eq_true, if_false]
-    unfold relSegs remainder at hnsp hLne0 ⊢
+    unfold sdCond relSegs remainder at ⊢
+    unfold relSegs remainder at hLne0
     obtain ⟨ca, cb, hA, hB, _, _, _⟩ := dropCommon_spec (nsegs (split a).path)
       (nsegs (Path.parent_or_empty (split b).path)) hws hwb
-    generalize hd : Ref.dropCommon (nsegs (split a).path) (nsegs (Path.parent_or_empty (split b).path)) = d at hnsp hA hB hLne0
+    generalize hd : Ref.dropCommon (nsegs (split a).path) (nsegs (Path.parent_or_empty (split b).path)) = d at hA hB hLne0
     obtain ⟨ss, bs, cm⟩ := d
-    simp only [] at hnsp hA hB hLne0 ⊢
+    simp only [] at hA hB hLne0 ⊢
     -- every pushed segment is free of `/`, `?`, `#`
     have hsegA : ∀ s ∈ nsegs (split a).path, cSlash ∉ s ∧ PathText s := by
       intro s hs
@@ -506,19 +527,46 @@ theorem relative_body_explicit (we : Grammar.OkWE G) (a b : Text)
       | nil => exact absurd hr hRne
       | cons c t => rfl
     simp only [hp2, hnem, Bool.false_eq_true, if_false, Option.bind_some]
-    -- the special case does not fire; then the query and the fragment of `a` are set
-    rw [hnsp]
-    simp only [Bool.false_eq_true, if_false, Option.bind_some]
-    have q1 := set_query_recompose _ wf (split a).query
-    rw [recompose_pathOnly] at q1
-    have wf2 := wf_pathQF (renderRel ((bs.map fun _ => segDotDot) ++ ss)) (split a).query none hpt hfc hsS wA.query
-    have f1 := set_fragment_recompose _ wf2 (split a).fragment
-    have hsame : ({ pathOnly (renderRel ((bs.map fun _ => segDotDot) ++ ss)) with query := (split a).query } : Spec.Parts)
-        = pathQF (renderRel ((bs.map fun _ => segDotDot) ++ ss)) (split a).query none := rfl
-    rw [hsame] at q1
-    simp only [q1, Option.bind_some, f1]
-    rfl
+    -- the special case clears the path or not; then the query and the fragment of `a` are set
+    have htail : ∀ (P : Text), PathText P → fsc P = false → startsSS P = false →
+        ((Ref.set_query P (split a).query).bind fun r4 => Ref.set_fragment r4 (split a).fragment) =
+          some (recompose (pathQF P (split a).query (split a).fragment)) := by
+      intro P hP hPf hPs
+      have wfP := wf_pathOnly P hP hPf hPs
+      have q1 := set_query_recompose _ wfP (split a).query
+      rw [recompose_pathOnly] at q1
+      have wf2 := wf_pathQF P (split a).query none hP hPf hPs wA.query
+      have f1 := set_fragment_recompose _ wf2 (split a).fragment
+      have hsame : ({ pathOnly P with query := (split a).query } : Spec.Parts) = pathQF P (split a).query none := rfl
+      rw [hsame] at q1
+      simp only [q1, Option.bind_some, f1]
+      rfl
+    cases hsd : (((split a).query.isSome || (split a).fragment.isSome) &&
+        ((split a).query.isSome || (split b).query.isNone) &&
+        some (renderRel ((bs.map fun _ => segDotDot) ++ ss)) == Path.last (split b).path) with
+    | false =>
+      simp only [Bool.false_eq_true, if_false, Option.bind_some]
+      exact htail _ hpt hfc hsS
+    | true =>
+      obtain ⟨h', e, hb'⟩ := clear_renderRel _ hLall
+      simp only [if_true, e, Option.map_some, hb', Option.bind_some]
+      exact htail [] (fun c hc => by cases hc) rfl rfl
   exact hbody
+
+theorem relative_body_explicit (we : Grammar.OkWE G) (a b : Text)
+    (ha : Matches G.reference a) (hb : Matches G.reference b)
+    (hpa : isAbs (split a).path = true)
+    (hpb : isAbs (split b).path = true ∨ ((split b).path = [] ∧ (split b).authority.isSome = true))
+    (hLne0 : relSegs a b ≠ [])
+    (hcls : (!(remainder a b).2.2 && (remainder a b).1.head? == some []) = false)
+    (hnsp : (((split a).query.isSome || (split a).fragment.isSome) &&
+      ((split a).query.isSome || (split b).query.isNone) &&
+      some (renderRel (relSegs a b)) == Path.last (split b).path) = false) :
+    Ref.relative_body a b = some (recompose (pathQF (renderRel (relSegs a b)) (split a).query (split a).fragment)) := by
+  have h := relative_body_explicit_gen G ok okp we a b ha hb hpa hpb hLne0 hcls
+  have hsd : sdCond a b = false := hnsp
+  rw [hsd] at h
+  simpa using h
 
 /-- **what `relative_to` returns on the class**: `./`? `../` for every remaining segment of `b`'s
 directory, then the remaining segments of `a` -/
